@@ -11,7 +11,8 @@ import vlib
 RULE = ("cases = (a) invocations executed on the real engine under chain.GetTestVM: every call chain of <= 3 hops x 16 "
         "requested flag sets x safe/non-safe printed by TLC (FlagsCases) x 5 probe operations, every system call of the "
         "interop table and every method of every native contract x 16 flag sets x 7 positions of the restricting set, "
-        "seeded random chains of 3-6 hops; (b) permission cases printed by TLC (PermCases: manifests x callee groups x "
+        "seeded random chains of 3-6 hops, and every chain of <= 2 hops x 3 operations executed by real transactions in "
+        "real blocks (observed through application logs and contract storage); (b) permission cases printed by TLC (PermCases: manifests x callee groups x "
         "method) each evaluated by Manifest.CanCall/Permission.IsAllowed on the deployed manifests and by two real "
         "cross-contract calls (System.Contract.Call, CALLT).  distinct = distinct (source, operation, root flags, chain, "
         "observed effects, frame count) tuples resp. (manifest, groups, method, answers); non-trivial: every invocation is "
@@ -25,6 +26,11 @@ MAX_REPLAYS = 12
 
 def run(ctx):
     q = ctx.quick()
+    if ctx.replay:
+        # every case of this check is a deterministic function of the tree: a replay is the full check again; the
+        # file documents the failing record (flags read from the real contexts / manifests and answers)
+        rp = json.load(open(ctx.replay))
+        vlib.log("replaying signature %s: re-running all cases" % json.dumps(rp.get("signature")))
     # ---------------------------------------------------------------- 1. exhaustive model checking
     ctx.tlc_mc("flags", "FlagsImpl.tla", "MC_Flags3.cfg" if q else "MC_Flags4.cfg", timeout=1500, coverage=not q)
     for cfg in ("MC_FlagsBugIntersect.cfg", "MC_FlagsBugSafe.cfg", "MC_FlagsBugPut.cfg"):
@@ -44,12 +50,13 @@ def run(ctx):
     json.dump(chains, open(os.path.join(ind, "chains.json"), "w"))
     json.dump(perms, open(os.path.join(ind, "perms.json"), "w"))
     # ---------------------------------------------------------------- 3. real code
-    res = ctx.go_driver("c16flags", "TestDriver", env={"VERIF_IN": ind, "VERIF_RANDOM": 3000 if q else 150000}, timeout=3000)
+    res = ctx.go_driver("c16flags", "TestDriver", env={"VERIF_IN": ind, "VERIF_RANDOM": 3000 if q else 300000, "VERIF_BLOCK_SAMPLE": -1}, timeout=3000)
     ctx.absorb(res)
     st = res.get("stats") or {}
-    for op in ("put", "lput", "del", "notify", "call"):
-        if not st.get("chain_effect_" + op):
-            raise vlib.Inconclusive("vacuous binding: operation %s never produced its effect on the real engine" % op)
+    for op in ("chain_effect_put", "chain_effect_lput", "chain_effect_del", "chain_effect_notify", "chain_effect_call",
+               "block_effect_putk", "block_effect_notify", "block_effect_call"):
+        if not st.get(op):
+            raise vlib.Inconclusive("vacuous binding: %s = 0, the operation never produced its effect on the real engine" % op)
     unreached = st.get("native_nonsafe_effect_not_reached") or []
     if st.get("native_nonsafe_methods", 0) < 30 or len(unreached) > 6:
         raise vlib.Inconclusive("vacuous binding: too many state-changing native methods did not reach an effect: %s" % unreached)
@@ -87,7 +94,8 @@ def run(ctx):
     if len(pres) != len(perms):
         raise vlib.Inconclusive("driver evaluated %d of %d permission cases" % (len(pres), len(perms)))
     allowed_seen = 0
-    for r in pres:
+    # report the strongest evidence first: a real cross-contract call of a non-safe method that went through
+    for r in sorted(pres, key=lambda r: (r["safe"], r["spec_may"] or not r["call_ok"])):
         for sig, detail in judge_perm(r):
             if sig is None:
                 if len(ctx.spec_drift) < 20:
@@ -102,7 +110,7 @@ def run(ctx):
     # ---------------------------------------------------------------- 6. binding self-tests
     # (on a tree with violations the corrupted records may be rejected for other reasons too: never let a self-test
     # turn a VIOLATION verdict into exit 2)
-    strict = not ctx.violations and not ctx.known_hits
+    strict = not ctx.violations
     try:
         selftest_trace(ctx, trace, {f["line"] for f in fails})
         selftest_perm(ctx, pres)
@@ -142,6 +150,16 @@ def judge_perm(r):
     """Yields (signature | None for drift, detail)."""
     out = []
     perms = r["perms"]
+    r = dict(r, how="harness/c16flags/perm_test.go: caller contract deployed with exactly these permissions (H1 = callee hash, "
+                    "H2 = another contract, G1/G2 = group keys), callee manifest updated to list `groups`; call_ok/callt_ok: the "
+                    "caller's method invoking callee.`method` through System.Contract.Call / CALLT halted and the callee ran; "
+                    "real_can/real_each: Manifest.CanCall / Permission.IsAllowed on the manifests read back from the chain")
+    # real calls from a deployed contract
+    for via, name in (("call_ok", "System.Contract.Call"), ("callt_ok", "CALLT")):
+        if r[via] and not r["spec_may"]:
+            out.append((perm_signature(r, name), dict(r, what="deployed contract called a non-safe method without a matching permission (via %s)" % name)))
+        elif r["spec_may"] and not r[via]:
+            out.append((None, dict(r, what="permitted call did not go through (via %s)" % name)))
     # pure functions
     if r["real_can"] and not r["spec_can"]:
         out.append((perm_signature(r, "Manifest.CanCall"), dict(r, what="Manifest.CanCall allows a call no permission of the manifest matches (callee AND method)")))
@@ -150,12 +168,6 @@ def judge_perm(r):
     for i, p in enumerate(perms):
         if i < len(r["real_each"]) and r["real_each"][i] and not r["spec_each"][i]:
             out.append((perm_signature(r, "Permission.IsAllowed"), dict(r, what="Permission.IsAllowed true although the permission does not match callee and method", index=i)))
-    # real calls from a deployed contract
-    for via, name in (("call_ok", "System.Contract.Call"), ("callt_ok", "CALLT")):
-        if r[via] and not r["spec_may"]:
-            out.append((perm_signature(r, name), dict(r, what="deployed contract called a non-safe method without a matching permission (via %s)" % name)))
-        elif r["spec_may"] and not r[via]:
-            out.append((None, dict(r, what="permitted call did not go through (via %s)" % name)))
     return out
 
 
